@@ -312,6 +312,7 @@ func (sc *Scenario) Build(obs *Obs) func() {
 			return true
 		})
 		if sc.Residue {
+			vsched.DropPseudos() // cancellations / shutdown that did not happen so far do not happen during the probes
 			obs.Residue = residue(st, lockers, sc, obs)
 		}
 	}
